@@ -75,6 +75,7 @@ func vhC18Setup(n int) (*pdfWriter, *canvas.Font) {
 	vStub("!(*github.com/tdewolff/canvas/renderers/pdf.pdfWriter).writeVal", vhC18WriteVal)
 	vStub("!(*github.com/tdewolff/font.SFNT).Subset", vhC18Subset)
 	vStub("!(*github.com/tdewolff/font.SFNT).Write", vhC18SFNTWrite)
+	vStub("!github.com/tdewolff/font.ParseSFNT", vhC13ParseSFNT)
 	vStub("!(*github.com/tdewolff/font.SFNT).GlyphAdvance", vhC18Advance)
 	vStub("!(*github.com/tdewolff/font.cmapTable).ToUnicode", vhC18MkToUnicode(sf.Cmap))
 	vStub("!(*github.com/tdewolff/font.nameTable).Get", vhC18MkNameGet(sf.Name, sf.Name.Get))
